@@ -23,6 +23,12 @@ structure LFacts (M a : String) (BL : Block) (β : Inj N) (σ : State N) : Prop 
   f1 : σ.closures[1]? = some (accClosure M a (envLI M))
   pc : 2 ≤ β.cL ∧ (∀ b, ¬ β.c 0 b) ∧ (∀ b, ¬ β.c 1 b)
   pt : 5 ≤ β.tL ∧ (∀ b, ¬ β.t 3 b) ∧ (∀ b, ¬ β.t 4 b)
+  /-- the cache table is not content-pinned (the accessor writes it) -/
+  np : ∀ p ∈ β.pinTL, p.1 ≠ 4
+  /-- the wrapper of the module body (left closure 0) and the module function of the reference program (right
+  closure 1) are RELATED closures: their bodies are related by the closure-body relation of the state relation, so
+  the call-site leaf can call them through the call handler without knowing anything about the bodies -/
+  fr : β.f 0 1
 
 /-- the reference program's private objects -/
 structure RFacts (a : String) (BR : Block) (β : Inj N) (σ' : State N) : Prop where
@@ -34,6 +40,8 @@ structure RFacts (a : String) (BR : Block) (β : Inj N) (σ' : State N) : Prop w
   f1 : σ'.closures[1]? = some ⟨.mk [] false none none [] [] BR, envR3, []⟩
   pc : 3 ≤ β.cR ∧ (∀ x, ¬ β.c x 0) ∧ (∀ x, ¬ β.c x 1) ∧ (∀ x, ¬ β.c x 2)
   pt : 5 ≤ β.tR ∧ (∀ x, ¬ β.t x 3) ∧ (∀ x, ¬ β.t x 4)
+  /-- `__ref_loaded` is not content-pinned (`__ref_require` writes it) -/
+  np : ∀ p ∈ β.pinTR, p.1 ≠ 3
 
 /-- the two caches: both empty, or both hold a (private) box for `a` with related values -/
 def Coupled (a : String) (β : Inj N) (σ σ' : State N) : Prop :=
@@ -46,8 +54,8 @@ def Coupled (a : String) (β : Inj N) (σ σ' : State N) : Prop :=
     VRel β v v'
 
 theorem lfacts_stable {M a : String} {BL : Block} {β β' : Inj N} {σ σ' s s' : State N} (he : β.ext β')
-    (hf : Frame β σ σ' s s') (h : LFacts M a BL β σ) : LFacts M a BL β' s := by
-  obtain ⟨c0, c1, tM, f0, f1, ⟨pc1, pc2, pc3⟩, ⟨pt1, pt2, pt3⟩⟩ := h
+    (hp : ∀ p ∈ β'.pinTL, p.1 ≠ 4) (hf : Frame β σ σ' s s') (h : LFacts M a BL β σ) : LFacts M a BL β' s := by
+  obtain ⟨c0, c1, tM, f0, f1, ⟨pc1, pc2, pc3⟩, ⟨pt1, pt2, pt3⟩, np, fr⟩ := h
   have unC : ∀ x, x < 2 → (∀ b, ¬ β.c x b) → ∀ b, ¬ β'.c x b := fun x hx hu b hb => by
     rcases he.freshC x b hb with h | h
     · exact hu b h
@@ -58,11 +66,11 @@ theorem lfacts_stable {M a : String} {BL : Block} {β β' : Inj N} {σ σ' s s' 
     · omega
   exact ⟨hf.cL 0 _ (by omega) pc2 c0, hf.cL 1 _ (by omega) pc3 c1, hf.tL 3 _ (by omega) pt2 tM, hf.fL 0 _ f0, hf.fL 1 _ f1,
     ⟨by have := he.front.1; omega, unC 0 (by omega) pc2, unC 1 (by omega) pc3⟩,
-    ⟨by have := he.front.2.2.1; omega, unT 3 (by omega) pt2, unT 4 (by omega) pt3⟩⟩
+    ⟨by have := he.front.2.2.1; omega, unT 3 (by omega) pt2, unT 4 (by omega) pt3⟩, hp, he.f _ _ fr⟩
 
 theorem rfacts_stable {a : String} {BR : Block} {β β' : Inj N} {σ σ' s s' : State N} (he : β.ext β')
-    (hf : Frame β σ σ' s s') (h : RFacts a BR β σ') : RFacts a BR β' s' := by
-  obtain ⟨c0, c1, c2, tMods, f0, f1, ⟨pc1, pc2, pc3, pc4⟩, ⟨pt1, pt2, pt3⟩⟩ := h
+    (hp : ∀ p ∈ β'.pinTR, p.1 ≠ 3) (hf : Frame β σ σ' s s') (h : RFacts a BR β σ') : RFacts a BR β' s' := by
+  obtain ⟨c0, c1, c2, tMods, f0, f1, ⟨pc1, pc2, pc3, pc4⟩, ⟨pt1, pt2, pt3⟩, np⟩ := h
   have unC : ∀ y, y < 3 → (∀ x, ¬ β.c x y) → ∀ x, ¬ β'.c x y := fun y hy hu x hb => by
     rcases he.freshC x y hb with h | h
     · exact hu x h
@@ -74,7 +82,7 @@ theorem rfacts_stable {a : String} {BR : Block} {β β' : Inj N} {σ σ' s s' : 
   exact ⟨hf.cR 0 _ (by omega) pc2 c0, hf.cR 1 _ (by omega) pc3 c1, hf.cR 2 _ (by omega) pc4 c2, hf.tR 4 _ (by omega) pt3 tMods,
     hf.fR 0 _ f0, hf.fR 1 _ f1,
     ⟨by have := he.front.2.1; omega, unC 0 (by omega) pc2, unC 1 (by omega) pc3, unC 2 (by omega) pc4⟩,
-    ⟨by have := he.front.2.2.2.1; omega, unT 3 (by omega) pt2, unT 4 (by omega) pt3⟩⟩
+    ⟨by have := he.front.2.2.2.1; omega, unT 3 (by omega) pt2, unT 4 (by omega) pt3⟩, hp⟩
 
 theorem coupled_stable {a : String} {β β' : Inj N} {σ σ' s s' : State N} (he : β.ext β')
     (hf : Frame β σ σ' s s') (hl : 5 ≤ β.tL ∧ ∀ b, ¬ β.t 4 b) (hr : 5 ≤ β.tR ∧ ∀ x, ¬ β.t x 3)
@@ -92,6 +100,14 @@ theorem coupled_stable {a : String} {β β' : Inj N} {σ σ' s s' : State N} (he
       · exact h8 x h
       · omega
 
+/-- the invariant survives every step that keeps the private objects and does not pin the two caches -/
+theorem inv_mono {M a : String} {BL BR : Block} {β β' : Inj N} {σ σ' s s' : State N} (he : β.ext β')
+    (hf : Frame β σ σ' s s') (hL : ∀ p ∈ β'.pinTL, p.1 ≠ 4) (hR : ∀ p ∈ β'.pinTR, p.1 ≠ 3)
+    (hI : LFacts M a BL β σ ∧ RFacts a BR β σ' ∧ Coupled a β σ σ') :
+    LFacts M a BL β' s ∧ RFacts a BR β' s' ∧ Coupled a β' s s' :=
+  ⟨lfacts_stable he hL hf hI.1, rfacts_stable he hR hf hI.2.1,
+    coupled_stable he hf ⟨hI.1.pt.1, hI.1.pt.2.2⟩ ⟨hI.2.1.pt.1, hI.2.1.pt.2.1⟩ hI.2.2⟩
+
 /-- the context of the one-module bundle -/
 def bcx (M a : String) (BL BR : Block) : Cx where
   W := [M, "__ref_require"]
@@ -99,9 +115,8 @@ def bcx (M a : String) (BL BR : Block) : Cx where
   bindR := [("__ref_require", 2)]
   CF := fun _ ρ k call => call = callClosure ρ k
   I := fun _ β σ σ' => LFacts M a BL β σ ∧ RFacts a BR β σ' ∧ Coupled a β σ σ'
-  stable := fun _ β β' σ σ' s s' he hf hI =>
-    ⟨lfacts_stable he hf hI.1, rfacts_stable he hf hI.2.1,
-      coupled_stable he hf ⟨hI.1.pt.1, hI.1.pt.2.2⟩ ⟨hI.2.1.pt.1, hI.2.1.pt.2.1⟩ hI.2.2⟩
+  stable := fun _ β β' σ σ' s s' he hp hf hI =>
+    inv_mono he hf (by rw [hp.1]; exact hI.1.np) (by rw [hp.2.2.1]; exact hI.2.1.np) hI
 
 /-- dead names in every related piece of code -/
 def D1 (M : String) : List DName :=
@@ -119,17 +134,56 @@ theorem init_sizes (externs : List String) : (initState externs : State N).cells
     (initState externs : State N).tables.length = 3 ∧ (initState externs : State N).closures = [] := by
   simp [initState]
 
+/-- the injection right after the two preludes: nothing new is related but the two module functions -/
+def startRel (σ σ' : State N) : Inj N := { (initRel (N := N)).bump σ σ' with f := fun a b => a = 0 ∧ b = 1 }
+
 theorem establish_I (M a : String) (BL BR : Block) (externs : List String)
     (hac : bytesOf "cache" ≠ bytesOf a) :
-    (bcx M a BL BR).I N ((initRel (N := N)).bump (postL M a BL externs) (postR a BR externs))
+    (bcx M a BL BR).I N (startRel (postL M a BL externs) (postR a BR externs))
       (postL M a BL externs) (postR a BR externs) := by
   have hne : ¬ "cache".toByteArray.toList = a.toByteArray.toList := by
     simpa [bytesOf] using hac
-  refine ⟨⟨?_, ?_, ?_, ?_, ?_, ?_, ?_⟩, ⟨?_, ?_, ?_, ?_, ?_, ?_, ?_, ?_⟩, .inl ⟨?_, ?_⟩⟩
+  refine ⟨⟨?_, ?_, ?_, ?_, ?_, ?_, ?_, ?_, ?_⟩, ⟨?_, ?_, ?_, ?_, ?_, ?_, ?_, ?_, ?_⟩, .inl ⟨?_, ?_⟩⟩
   all_goals
-    simp [postL, postR, afterDefinition, afterTable, afterRefPrelude1, afterRefLa, State.allocCell, State.allocTable,
+    simp [startRel, postL, postR, afterDefinition, afterTable, afterRefPrelude1, afterRefLa, State.allocCell, State.allocTable,
       State.allocClosure, State.setCell, State.rawSet, State.setTable, State.getTable, initState, Inj.bump, initRel,
       Heap.getElem?_listSet, listSet, rawSetEntries, rawEq, strVal, strToBytes, hne, implClosure, accClosure, envLI, envR3]
+
+/-- enter a context from a state pair with NO related closures, relating a given set `F` of closure pairs
+(`SRel.rebase` relates none): the consumer shows that the pairs are `CRel`-related in the new context -/
+theorem srel_rebaseF {Q Q' : QRel} {cx cx' : Cx} {β : Inj N} {σ σ' : State N} (h : SRel Q cx β σ σ')
+    (hf : ∀ a b, ¬ β.f a b) (hpin : β.pinF = []) (hpinR : β.pinFR = []) (F : Nat → Nat → Prop) (hinj : Injective F)
+    (hclo : ∀ {a b}, F a b → ∃ c c', σ.closures[a]? = some c ∧ σ'.closures[b]? = some c' ∧
+      CRel Q' cx' { β with f := F } c c')
+    (hI : cx'.I N { β with f := F } σ σ')
+    (hG : ∀ p ∈ cx'.G N, σ.getGlobal p.1 = p.2 ∧ σ'.getGlobal p.1 = p.2 := by intro _ h; cases h)
+    (hF : ∀ p ∈ cx'.F, FnGlobal σ p.1 p.2 ∧ FnGlobal σ' p.1 p.2 := by intro _ h; cases h) :
+    SRel Q' cx' { β with f := F } σ σ' := by
+  have hle : ∀ {v v' : Val N}, VRel β v v' → VRel { β with f := F } v v' := by
+    intro v v' hv
+    cases v <;> cases v' <;> simp only [VRel] at hv ⊢ <;> first | exact hv | exact absurd hv (hf _ _)
+  have hleT : ∀ {t t' : Table N}, TRel β t t' → TRel { β with f := F } t t' := fun ht =>
+    ⟨Forall2.imp (fun _ _ he => ⟨hle he.1, hle he.2⟩) ht.entries, ht.mt⟩
+  exact {
+    globals := Forall2.imp (fun _ _ hp => ⟨hp.1, hle hp.2⟩) h.globals
+    trace := h.trace
+    injC := h.injC
+    injT := h.injT
+    injF := hinj
+    cell := fun hab => let ⟨v, v', h1, h2, hv⟩ := h.cell hab; ⟨v, v', h1, h2, hle hv⟩
+    tbl := fun hab => let ⟨v, v', h1, h2, hv⟩ := h.tbl hab; ⟨v, v', h1, h2, hleT hv⟩
+    clo := hclo
+    strlib := h.strlib
+    ginv := hG
+    finv := hF
+    front := ⟨h.front.cL, h.front.cR, h.front.tL, h.front.tR, h.front.fL, h.front.fR⟩
+    pin := fun p hp => by rw [show ({ β with f := F } : Inj N).pinF = β.pinF from rfl, hpin] at hp; cases hp
+    pinR := fun p hp => by rw [show ({ β with f := F } : Inj N).pinFR = β.pinFR from rfl, hpinR] at hp; cases hp
+    pinT := h.pinT
+    pinC := h.pinC
+    pinTl := h.pinTl
+    pinCl := h.pinCl
+    inv := hI }
 
 theorem postL_ext (M a : String) (BL : Block) (externs : List String) :
     StExt (initState externs : State N) (postL M a BL externs) :=
